@@ -211,11 +211,12 @@ Theorem trim_matches_laws : forall p s,
   (exists n, s = repeat_bytes p n ++ trim_start_matches p s) /\
   (exists n, s = trim_end_matches p s ++ repeat_bytes p n) /\
   (p <> [] -> is_prefix p (trim_start_matches p s) = false) /\
+  (p <> [] -> is_suffix p (trim_end_matches p s) = false) /\
   trim_start_matches p (trim_start_matches p s) = trim_start_matches p s /\
   trim_end_matches p (trim_end_matches p s) = trim_end_matches p s.
 Proof.
   intros p s. split; [apply trim_start_decomp_lemma|]. split; [apply trim_end_decomp_lemma|].
-  split; [apply trim_start_stops|]. split; [apply trim_start_idem_lemma | apply trim_end_idem_lemma].
+  split; [apply trim_start_stops|]. split; [apply trim_end_stops|]. split; [apply trim_start_idem_lemma | apply trim_end_idem_lemma].
 Qed.
 Print Assumptions trim_matches_laws.
 
